@@ -17,6 +17,7 @@ here);
 Also decided: the SDK's grid steppers and array start use Euclidean remainder / division; its tick lookup refuses out-of-range
 and off-grid indexes and reads arrays[(i - start0) / (88 s)].ticks[(i - start_k) / s]; start / end index formulas; its
 transfer-fee arithmetic (ceil, cap at max_fee, inverse with the 100 % case).
+Also decided: the swap quotes apply each transfer fee to an amount of that fee's own token (input fee on input-token amounts, output fee on output-token amounts).
 Not decided: numeric equality of the two arithmetic formulations (U256 vs U256Muldiv), "never
 fails where the program succeeds", the WASM / TypeScript packaging."""
 import re
